@@ -28,6 +28,9 @@ INVARIANT RegistryInStore
 INVARIANT AnchorsAreBR
 INVARIANT NoStaleConnected
 INVARIANT BanExact
+INVARIANT FetchAnswerExists
+INVARIANT FetchNeverConnected
+INVARIANT BookBounded
 PROPERTY NoBannedAdmitted
 PROPERTY EvictionRight
 CHECK_DEADLOCK FALSE
